@@ -61,23 +61,32 @@ theorem construct_refines (c : Cfg) (el : Elem α) (ht : TrivOK c el) (mv : Bool
     · simp [hb, ht.mc hb]
     · simp [hb, visit1_active c src h]
 
+/-- non-vacuity of `TrivOK`: `variant<int, Q>` (no trait bit set, every member of `Q` leaves its mark) and
+    `variant<int, float>` (all four trait bits set, every member the plain copy) -/
 example : TrivOK ⟨2, false, false, false, false⟩ markElem := trivOK_mark 2
+example : TrivOK ⟨2, true, true, true, true⟩ (plainElem : Elem Nat) := trivOK_plain _
 
 /-- copy / move assignment between two distinct objects: same alternative → the element's own copy / move
-    assignment; different alternative → destroy, then copy / move construct from the source.  `hfb`: no
-    alternative asks for the copy-then-move of [variant.assign]/2.4 (potentially-throwing copy constructor with
-    a non-throwing move constructor); `assign_fallback_counterexample` shows what happens otherwise. -/
-theorem assign_refines (c : Cfg) (el : Elem α) (ht : TrivOK c el) (fb : α → Bool) (hfb : ∀ x, fb x = false)
-    (mv : Bool) (dst src : V α) (hd : dst.idx < c.n) (hs : src.idx < c.n) :
+    assignment; different alternative → destroy, then copy / move construct from the source.  `_partial`: the
+    excluded inputs are exactly the class of known finding F-C07-copy-assign-no-copy-then-move (`Spec.fbAssign`:
+    a *copy* assignment that changes the alternative, of a value whose type has a potentially-throwing copy
+    constructor and a non-throwing move constructor, for which [variant.assign]/2.4 prescribes copy-then-move);
+    `assign_fallback_counterexample` shows what happens there.  A configuration that contains such a type is
+    covered for every other assignment. -/
+theorem assign_refines_partial (c : Cfg) (el : Elem α) (ht : TrivOK c el) (fb : α → Bool)
+    (mv : Bool) (dst src : V α) (hd : dst.idx < c.n) (hs : src.idx < c.n)
+    (hfb : Spec.fbAssign fb mv dst src = false) :
     assign c el mv dst src = .ok (Spec.assignV el fb mv dst src) := by
   unfold assign Spec.assignV Spec.thru Spec.cons
   cases mv
-  · by_cases hb : c.trivCA = true
-    · by_cases he : dst.idx = src.idx <;> simp [hb, (ht.ca hb).1, (ht.ca hb).2, hfb, he]
-    · simp only [hb, visit2_active c dst src hd hs]
-      by_cases he : dst.idx = src.idx
-      · simp [he]
-      · simp [he, destroy_ok c dst hd, hfb]
+  · by_cases he : dst.idx = src.idx
+    · by_cases hb : c.trivCA = true
+      · simp [hb, (ht.ca hb).1, he]
+      · simp [hb, visit2_active c dst src hd hs, he]
+    · have hf : fb src.val = false := by simpa [Spec.fbAssign, he] using hfb
+      by_cases hb : c.trivCA = true
+      · simp [hb, (ht.ca hb).2, he, hf]
+      · simp [hb, visit2_active c dst src hd hs, he, destroy_ok c dst hd, hf]
   · by_cases hb : c.trivMA = true
     · by_cases he : dst.idx = src.idx <;> simp [hb, (ht.ma hb).1, (ht.ma hb).2, he]
     · simp only [hb, visit2_active c dst src hd hs]
@@ -85,17 +94,22 @@ theorem assign_refines (c : Cfg) (el : Elem α) (ht : TrivOK c el) (fb : α → 
       · simp [he]
       · simp [he, destroy_ok c dst hd]
 
-example : TrivOK ⟨2, false, false, false, false⟩ markElem ∧ ∀ x : Nat × Nat, (Spec.noFb x) = false :=
-  ⟨trivOK_mark 2, fun _ => rfl⟩
+/-- non-vacuity: `variant<Q, X>` (X asks for copy-then-move): a copy assignment that keeps the alternative X, and a
+    move assignment that changes it, are both outside the excluded class -/
+example : TrivOK ⟨2, false, false, false, false⟩ markElem
+    ∧ Spec.fbAssign (fun _ => true) false (⟨1, (5, 0)⟩ : V (Nat × Nat)) ⟨1, (7, 0)⟩ = false
+    ∧ Spec.fbAssign (fun _ => true) true (⟨0, (5, 0)⟩ : V (Nat × Nat)) ⟨1, (7, 0)⟩ = false :=
+  ⟨trivOK_mark 2, by decide, by decide⟩
 
 /-- known finding F-C07-copy-assign-no-copy-then-move: for an alternative with a potentially-throwing copy
     constructor and a non-throwing move constructor, [variant.assign]/2.4 copy-assigns a different alternative
     as `operator=(variant(rhs))` (copy construct a temporary, move construct from it: mark 2); `etl::variant`
-    copy constructs in place (mark 1) -/
+    copy constructs in place (mark 1).  The input is in the excluded class (`fbAssign = true`). -/
 theorem assign_fallback_counterexample :
     assign ⟨2, false, false, false, false⟩ markElem false ⟨0, (5, 0)⟩ ⟨1, (7, 0)⟩ = .ok (⟨1, (7, 1)⟩, ⟨1, (7, 0)⟩)
-      ∧ Spec.assignV markElem (fun _ => true) false ⟨0, (5, 0)⟩ ⟨1, (7, 0)⟩ = (⟨1, (7, 2)⟩, ⟨1, (7, 0)⟩) :=
-  ⟨rfl, rfl⟩
+      ∧ Spec.assignV markElem (fun _ => true) false ⟨0, (5, 0)⟩ ⟨1, (7, 0)⟩ = (⟨1, (7, 2)⟩, ⟨1, (7, 0)⟩)
+      ∧ Spec.fbAssign (fun _ => true) false (⟨0, (5, 0)⟩ : V (Nat × Nat)) ⟨1, (7, 0)⟩ = true :=
+  ⟨rfl, rfl, by decide⟩
 
 theorem assignSelf_refines (c : Cfg) (mv : Bool) (v : V α) (h : v.idx < c.n) : assignSelf c mv v = .ok v := by
   unfold assignSelf
@@ -104,6 +118,74 @@ theorem assignSelf_refines (c : Cfg) (mv : Bool) (v : V α) (h : v.idx < c.n) : 
   · simp [hb, visit2_active c v v h h]
 
 example : (⟨1, 7⟩ : V Nat).idx < (⟨2, false, false, false, false⟩ : Cfg).n := by decide
+
+/-! ## converting construction / assignment -/
+
+/-- `variant(T&&)`: the selected alternative, initialized from the argument (its value when of another type, copy
+    constructed from an lvalue `T_j`, move constructed from an rvalue `T_j`), and the argument afterwards -/
+theorem convCtor_refines (c : Cfg) (el : Elem α) (cat : Arg) (j : Nat) (x : α) (hj : j < c.n) :
+    convCtor c el cat j x = .ok (Spec.convCtorV el cat j x) := by
+  simp [convCtor, hj, Spec.convCtorV]
+
+example : (1 : Nat) < (⟨2, false, false, false, false⟩ : Cfg).n := by decide
+
+/-- `variant::operator=(T&&)` ([variant.assign]/13; with `j = 1` also `optional::operator=(U&&)`, [optional.assign]):
+    the selected alternative is held → the argument is assigned to the held element (the element's copy assignment
+    for an lvalue `T_j`, its move assignment for an rvalue `T_j` and for the temporary made from an argument of
+    another type), the index does not change and no element is destroyed; another alternative is held → it is
+    destroyed and the selected one constructed from the argument.  Both routes of the implementation are covered:
+    the member template (`direct`), and the temporary variant + move assignment that overload resolution falls back
+    to for scalar alternatives (`hvt`: there the extra move is not observable).  `_partial`: the excluded inputs
+    (`Spec.fbConv`) are the converting-assignment half of known finding F-C07-copy-assign-no-copy-then-move
+    ([variant.assign]/13.3: an lvalue `T_j` whose copy constructor may throw is copied to a temporary first);
+    `convAssign_fallback_counterexample`. -/
+theorem convAssign_refines_partial (c : Cfg) (el : Elem α) (ht : TrivOK c el) (fb : α → Bool) (direct : Bool)
+    (cat : Arg) (v : V α) (j : Nat) (x : α) (hv : v.idx < c.n) (hj : j < c.n)
+    (hfb : Spec.fbConv fb cat v j x = false) (hvt : direct = false → Spec.ViaTempOK el cat v j x) :
+    convAssign c el direct cat v j x = .ok (Spec.convAssignV el fb cat v j x) := by
+  have hcons : v.idx ≠ j → Spec.consArgFb el fb cat x = consArg el cat x := by
+    intro he
+    by_cases hc : cat = .lval
+    · have hf : fb x = false := by simpa [Spec.fbConv, hc, he] using hfb
+      simp [Spec.consArgFb, hf]
+    · simp [Spec.consArgFb, hc]
+  cases direct
+  · have h := assign_refines_partial c el ht Spec.noFb true v ⟨j, (consArg el cat x).1⟩ hv hj (fbAssign_noFb _ _ _)
+    obtain ⟨h1, h2⟩ := hvt rfl
+    by_cases he : v.idx = j
+    · simp [convAssign, hj, h, Spec.assignV, Spec.thru, Spec.convAssignV, he, ← h1 he]
+    · simp [convAssign, hj, h, Spec.assignV, Spec.cons, Spec.convAssignV, he, hcons he, h2 he]
+  · by_cases he : v.idx = j
+    · cases v with
+      | mk i y =>
+        simp only at he
+        subst he
+        simp [convAssign, getAt, Spec.convAssignV]
+    · simp [convAssign, he, emplace, hj, destroy_ok c v hv, Spec.convAssignV, hcons he]
+
+/-- non-vacuity: `variant<int, Q>` holding Q, `v = q` (an lvalue Q, member template): `fbConv` is false for a type
+    that asks for nothing, and the detour hypothesis is void -/
+example : Spec.fbConv Spec.noFb .lval (⟨1, (5, 0)⟩ : V (Nat × Nat)) 1 (7, 0) = false
+    ∧ ((true = false) → Spec.ViaTempOK markElem .lval (⟨1, (5, 0)⟩ : V (Nat × Nat)) 1 (7, 0)) :=
+  ⟨by decide, fun h => by cases h⟩
+/-- non-vacuity of the detour hypothesis: plain elements (`variant<int, float>`, `v = 3`) -/
+example : Spec.ViaTempOK (plainElem : Elem Nat) .conv ⟨1, 5⟩ 0 3 := viaTempOK_plain _ _ _ _
+
+/-- what the model and the reference do on the held alternative: `variant<int, Q>` holding Q, assigned an lvalue Q:
+    Q's copy assignment runs (mark 3), nothing is re-constructed (sample, kept as a regression of the two fixed
+    findings F-C07-variant-converting-assign-reconstructs / F-C07-optional-converting-assign-reconstructs) -/
+example : convAssign ⟨2, false, false, false, false⟩ markElem true .lval ⟨1, (5, 0)⟩ 1 (7, 0) = .ok (⟨1, (7, 3)⟩, (7, 0)) := rfl
+
+/-- known finding F-C07-copy-assign-no-copy-then-move, converting assignment: `variant<Q, X>` holding Q, `v = x` for
+    an lvalue X: etl copy constructs in place (mark 1), [variant.assign]/13.3 prescribes `emplace<1>(X(x))`
+    (mark 2).  The input is in the excluded class. -/
+theorem convAssign_fallback_counterexample :
+    convAssign ⟨2, false, false, false, false⟩ markElem true .lval ⟨0, (5, 0)⟩ 1 (7, 0) = .ok (⟨1, (7, 1)⟩, (7, 0))
+      ∧ Spec.convAssignV markElem (fun _ => true) .lval ⟨0, (5, 0)⟩ 1 (7, 0) = (⟨1, (7, 2)⟩, (7, 0))
+      ∧ Spec.fbConv (fun _ => true) .lval (⟨0, (5, 0)⟩ : V (Nat × Nat)) 1 (7, 0) = true :=
+  ⟨rfl, rfl, by decide⟩
+
+/-! ## swap -/
 
 /-- the generic `etl::swap` (three moves through a temporary) on two variants, whatever their alternatives,
     is the three-move exchange of [utility.swap] on (index, value) pairs -/
@@ -115,8 +197,8 @@ theorem swap2_refines (c : Cfg) (el : Elem α) (ht : TrivOK c el)
   have h4 : (Spec.assignV el Spec.noFb true (Spec.assignV el Spec.noFb true (Spec.ctorV el true a).2 b).2
       (Spec.ctorV el true a).1).2.idx < c.n := by simpa using ha
   simp [swap2, Spec.swapV, construct_refines c el ht true a ha,
-    assign_refines c el ht Spec.noFb (fun _ => rfl) true _ b h2 hb,
-    assign_refines c el ht Spec.noFb (fun _ => rfl) true _ _ h3 h1, destroy_ok c _ h4]
+    assign_refines_partial c el ht Spec.noFb true _ b h2 hb (fbAssign_noFb _ _ _),
+    assign_refines_partial c el ht Spec.noFb true _ _ h3 h1 (fbAssign_noFb _ _ _), destroy_ok c _ h4]
 
 example : TrivOK ⟨2, false, false, false, false⟩ markElem := trivOK_mark 2
 
@@ -127,15 +209,61 @@ theorem swapSelf_refines (c : Cfg) (el : Elem α) (ht : TrivOK c el)
   have h4 : (Spec.assignV el Spec.noFb true (Spec.ctorV el true a).2 (Spec.ctorV el true a).1).2.idx < c.n := by
     simpa using ha
   simp [swapSelf, Spec.swapSelfV, construct_refines c el ht true a ha, assignSelf_refines c true _ h2,
-    assign_refines c el ht Spec.noFb (fun _ => rfl) true _ _ h2 h1, destroy_ok c _ h4]
+    assign_refines_partial c el ht Spec.noFb true _ _ h2 h1 (fbAssign_noFb _ _ _), destroy_ok c _ h4]
 
 example : TrivOK ⟨2, false, false, false, false⟩ markElem := trivOK_mark 2
 
+/-- the three-move exchange is [variant.swap]: for two objects holding the same alternative it IS the element-wise
+    `swap(get<i>(a), get<i>(b))` (no law needed); for different alternatives each object ends up with the other's
+    alternative move constructed from the other's value, provided a second move construction of `a`'s value cannot
+    be observed (`MoveIdem`: the three-move form moves it through the temporary) -/
+theorem swapV_eq_std (el : Elem α) (a b : V α) (h : a.idx ≠ b.idx → Spec.MoveIdem el a.val) :
+    Spec.swapV el a b = Spec.swapStdV el a b := by
+  unfold Spec.swapV Spec.swapStdV Spec.swapElem Spec.ctorV Spec.assignV Spec.thru Spec.cons
+  by_cases he : a.idx = b.idx
+  · simp [he]
+  · have he' : ¬ b.idx = a.idx := fun h' => he h'.symm
+    have := h he
+    unfold Spec.MoveIdem at this
+    simp [he, he', this]
+
+/-- `MoveIdem` for the marked element kind (a move constructor leaves the constant mark 2) -/
+example : ∀ x : Nat × Nat, Spec.MoveIdem markElem x := fun _ => rfl
+
+/-- `etl::swap` of two variants gives what [variant.swap] prescribes -/
+theorem swap2_std (c : Cfg) (el : Elem α) (ht : TrivOK c el) (a b : V α) (ha : a.idx < c.n) (hb : b.idx < c.n)
+    (h : a.idx ≠ b.idx → Spec.MoveIdem el a.val) : swap2 c el a b = .ok (Spec.swapStdV el a b) := by
+  rw [swap2_refines c el ht a b ha hb, swapV_eq_std el a b h]
+
+example : TrivOK ⟨2, false, false, false, false⟩ markElem ∧ ((0 : Nat) ≠ 1 → Spec.MoveIdem markElem ((5, 0) : Nat × Nat)) :=
+  ⟨trivOK_mark 2, fun _ => rfl⟩
+
+/-- the same for `optional` ([optional.swap]: both engaged: the elements are swapped; one engaged: the empty one is
+    move constructed from the other, which is reset) -/
+theorem swapO_eq_std (el : Elem α) (a b : Option α) (h : ∀ x, a = some x → b = none → Spec.MoveIdem el x) :
+    Spec.swapO el a b = Spec.swapStdO el a b := by
+  cases a with
+  | none => cases b <;> simp [Spec.swapO, Spec.swapStdO, Spec.ctorO, Spec.assignO, Spec.cons]
+  | some x =>
+    cases b with
+    | none =>
+      have := h x rfl rfl
+      unfold Spec.MoveIdem at this
+      simp [Spec.swapO, Spec.swapStdO, Spec.ctorO, Spec.assignO, Spec.cons, this]
+    | some y => simp [Spec.swapO, Spec.swapStdO, Spec.swapElem, Spec.ctorO, Spec.assignO, Spec.cons, Spec.thru]
+
+example : ∀ x : Nat × Nat, (some (5, 0) : Option (Nat × Nat)) = some x → (none : Option (Nat × Nat)) = none →
+    Spec.MoveIdem markElem x := fun _ _ _ => rfl
+
 /-! ## histories -/
 
-/-- one operation of a history: the model succeeds and yields the spec's state -/
-theorem step_refines (c : Cfg) (el : Elem α) (ht : TrivOK c el) (fb : α → Bool) (hfb : ∀ x, fb x = false)
-    (st : List (V α)) (hwf : WF c st) (op : Op α) (hv : Spec.valid c.n st op = true) :
+/-- one operation of a history: the model succeeds and yields the spec's state.  `hfb`: the operation is not in the
+    class of known finding F-C07-copy-assign-no-copy-then-move (pointwise: a history over a configuration that
+    contains such a type is covered as long as no single step is a cross-alternative copy of such a value);
+    `hvt`: see `convAssign_refines_partial`. -/
+theorem step_refines_partial (c : Cfg) (el : Elem α) (ht : TrivOK c el) (fb : α → Bool)
+    (st : List (V α)) (hwf : WF c st) (op : Op α) (hv : Spec.valid c.n st op = true)
+    (hfb : Spec.fbHit fb st op = false) (hvt : Spec.ConvOK el st op) :
     step c el st op = .ok (Spec.step el fb st op) := by
   cases op with
   | emplace k i x =>
@@ -154,7 +282,9 @@ theorem step_refines (c : Cfg) (el : Elem α) (ht : TrivOK c el) (fb : α → Bo
     · subst hkj
       simp [step, rd_ok st k hv.1, assignSelf_refines c mv _ hk, put_ok st k _ hv.1, Spec.step, hv.1]
     · have hj' : j < (st.set k (Spec.assignV el fb mv st[k] st[j]).1).length := by simp [hv.2]
-      simp [step, hkj, rd_ok st k hv.1, rd_ok st j hv.2, assign_refines c el ht fb hfb mv _ _ hk hj,
+      have hf : Spec.fbAssign fb mv st[k] st[j] = false := by
+        simpa [Spec.fbHit, List.getElem?_eq_getElem hv.1, List.getElem?_eq_getElem hv.2, hkj] using hfb
+      simp [step, hkj, rd_ok st k hv.1, rd_ok st j hv.2, assign_refines_partial c el ht fb mv _ _ hk hj hf,
         put_ok st k _ hv.1, put_ok _ j _ hj', Spec.step, hv.1, hv.2]
   | ctor k j mv =>
     simp only [Spec.valid, Bool.and_eq_true, decide_eq_true_eq] at hv
@@ -180,8 +310,29 @@ theorem step_refines (c : Cfg) (el : Elem α) (ht : TrivOK c el) (fb : α → Bo
     · have hj' : j < (st.set k (Spec.swapV el st[k] st[j]).1).length := by simp [hv.2]
       simp [step, hkj, rd_ok st k hv.1, rd_ok st j hv.2, swap2_refines c el ht _ _ hk hj,
         put_ok st k _ hv.1, put_ok _ j _ hj', Spec.step, hv.1, hv.2]
+  | conv k j direct asg cat x =>
+    simp only [Spec.valid, Bool.and_eq_true, decide_eq_true_eq] at hv
+    have hk := hwf _ (List.getElem_mem hv.1)
+    cases asg
+    · simp [step, rd_ok st k hv.1, convCtor_refines c el cat j x hv.2, destroy_ok c _ hk, put_ok st k _ hv.1,
+        Spec.step, hv.1]
+    · have hf : Spec.fbConv fb cat st[k] j x = false := by
+        simpa [Spec.fbHit, List.getElem?_eq_getElem hv.1] using hfb
+      have ht' : direct = false → Spec.ViaTempOK el cat st[k] j x := by
+        intro hd
+        subst hd
+        simpa [Spec.ConvOK, List.getElem?_eq_getElem hv.1] using hvt
+      simp [step, rd_ok st k hv.1, convAssign_refines_partial c el ht fb direct cat _ j x hk hv.2 hf ht',
+        put_ok st k _ hv.1, Spec.step, hv.1]
 
-example : Spec.valid 2 [(⟨0, (5, 0)⟩ : V (Nat × Nat)), ⟨1, (7, 0)⟩] (.assign 0 1 true) = true := by decide
+/-- non-vacuity: `variant<Q, X>`, objects holding Q and X: a move assignment across alternatives of an X, and a
+    converting assignment of an lvalue X to the object that holds an X, are valid and outside the excluded class -/
+example : Spec.valid 2 [(⟨0, (5, 0)⟩ : V (Nat × Nat)), ⟨1, (7, 0)⟩] (.assign 0 1 true) = true
+    ∧ Spec.fbHit (fun _ => true) [(⟨0, (5, 0)⟩ : V (Nat × Nat)), ⟨1, (7, 0)⟩] (.assign 0 1 true) = false
+    ∧ Spec.fbHit (fun _ => true) [(⟨0, (5, 0)⟩ : V (Nat × Nat)), ⟨1, (7, 0)⟩] (.conv 1 1 true true .lval (3, 0)) = false
+    ∧ Spec.ConvOK markElem [(⟨0, (5, 0)⟩ : V (Nat × Nat)), ⟨1, (7, 0)⟩] (.conv 1 1 true true .lval (3, 0)) := by
+  refine ⟨by decide, by decide, by decide, ?_⟩
+  simp [Spec.ConvOK]
 
 /-- the invariant "every object holds one of its alternatives" is preserved -/
 theorem wf_step (c : Cfg) (el : Elem α) (fb : α → Bool) (st : List (V α)) (hwf : WF c st) (op : Op α)
@@ -219,45 +370,64 @@ theorem wf_step (c : Cfg) (el : Elem α) (fb : α → Bool) (st : List (V α)) (
       exact wf_set hwf j _ (by simp [Spec.swapSelfV]; exact hj)
     · simp only [hkj, if_false]
       exact wf_set (wf_set hwf k _ (by simp [Spec.swapV]; exact hj)) j _ (by simp [Spec.swapV]; exact hk)
+  | conv k j direct asg cat x =>
+    simp only [Spec.valid, Bool.and_eq_true, decide_eq_true_eq] at hv
+    simp only [Spec.step, List.getElem?_eq_getElem hv.1]
+    exact wf_set hwf k _ (by cases asg <;> simp [hv.2])
 
 example : Spec.valid 2 [(⟨0, (5, 0)⟩ : V (Nat × Nat)), ⟨1, (7, 0)⟩] (.ctor 1 0 false) = true := by decide
 
 /-- whole histories of any length over any number of objects: the model never fails and every object ends
     with the index and the value the spec prescribes (which special member of the element produced it and the
-    moved-from sources included) -/
-theorem run_refines (c : Cfg) (el : Elem α) (ht : TrivOK c el) (fb : α → Bool) (hfb : ∀ x, fb x = false) :
-    ∀ (ops : List (Op α)) (st : List (V α)), WF c st → Spec.validRun c.n el fb st ops = true →
+    moved-from sources included).  `Spec.OkRun`: every step names existing objects and alternatives, and is
+    outside the known-finding class (checked step by step along the run, not for the configuration as a whole). -/
+theorem run_refines_partial (c : Cfg) (el : Elem α) (ht : TrivOK c el) (fb : α → Bool) :
+    ∀ (ops : List (Op α)) (st : List (V α)), WF c st → Spec.OkRun c.n el fb st ops →
       run c el st ops = .ok (Spec.run el fb st ops) ∧ WF c (Spec.run el fb st ops)
   | [], st, hwf, _ => ⟨rfl, hwf⟩
   | op :: ops, st, hwf, hv => by
-    simp only [Spec.validRun, Bool.and_eq_true] at hv
-    have h1 := step_refines c el ht fb hfb st hwf op hv.1
-    have h2 := wf_step c el fb st hwf op hv.1
-    have ih := run_refines c el ht fb hfb ops _ h2 hv.2
+    obtain ⟨hv1, hf, hc, hrest⟩ := hv
+    have h1 := step_refines_partial c el ht fb st hwf op hv1 hf hc
+    have h2 := wf_step c el fb st hwf op hv1
+    have ih := run_refines_partial c el ht fb ops _ h2 hrest
     simp only [run, h1, Spec.run]
     exact ih
 
-example : Spec.validRun 2 markElem Spec.noFb [(⟨0, (5, 0)⟩ : V (Nat × Nat)), ⟨1, (7, 0)⟩]
-    [.swap 0 1, .assign 1 1 true, .emplace 0 1 (3, 0), .assign 0 1 false] = true := by
-  decide
+/-- non-vacuity: a history over `variant<Q, X>` (X asks for copy-then-move) with a swap, a self move assignment, an
+    emplace, a *move* assignment of an X across alternatives, a converting assignment of an lvalue X onto a held X
+    and a *copy* assignment of an X onto an X -/
+example : Spec.OkRun 2 markElem (fun _ => true) [(⟨0, (5, 0)⟩ : V (Nat × Nat)), ⟨1, (7, 0)⟩]
+    [.swap 0 1, .assign 1 1 true, .emplace 0 1 (3, 0), .assign 1 0 true, .conv 0 1 true true .lval (9, 0),
+     .assign 0 1 false] := by
+  simp [Spec.OkRun, Spec.valid, Spec.fbHit, Spec.fbAssign, Spec.fbConv, Spec.ConvOK, Spec.step, Spec.swapV, Spec.ctorV,
+    Spec.assignV, Spec.cons, Spec.convAssignV, markElem, asgArg]
 
 /-! ## optional and expected on top of the variant -/
 
 /-- `etl::optional<T>` (reset = `emplace<0>(nullopt)`, emplace = `emplace<1>`, copy/move/swap = the
-    variant's) is a simulation of [optional.assign] / [optional.ctor] / the generic swap on `Option`: after any
-    operation, `has_value()` and `*o` of every object are what the `Option` spec gives (engaged ← engaged assigns
-    through, empty ← engaged constructs, no copy-then-move), and the model does not fail. -/
+    variant's, value construction / assignment = the converting forms with alternative 1) is a simulation of
+    [optional.assign] / [optional.ctor] / the generic swap on `Option`: after any operation, `has_value()` and `*o`
+    of every object are what the `Option` spec gives (engaged ← engaged assigns through, empty ← engaged constructs,
+    `o = v` assigns `v` to the contained value when engaged; no copy-then-move anywhere in [optional.assign], so no
+    input is excluded), and the model does not fail. -/
 theorem optional_refines (c : Cfg) (hc : c.n = 2) (el : Elem α) (ht : TrivOK c el)
     (nullv : α) (st : List (V α)) (hwf : WF c st) (op : Spec.OOp α)
-    (hv : Spec.valid 2 st (Spec.optToVar nullv op) = true) :
+    (hv : Spec.valid 2 st (Spec.optToVar nullv op) = true) (hvt : Spec.ConvOK el st (Spec.optToVar nullv op)) :
     (step c el st (Spec.optToVar nullv op)).map (List.map Spec.absO)
       = .ok (Spec.ostep el (st.map Spec.absO) op) := by
-  rw [step_refines c el ht Spec.noFb (fun _ => rfl) st hwf _ (by rw [hc]; exact hv)]
+  rw [step_refines_partial c el ht Spec.noFb st hwf _ (by rw [hc]; exact hv) (fbHit_noFb _ _) hvt]
   simp only [ok_map]
   congr 1
   cases op with
   | reset k => simp [Spec.optToVar, Spec.step, Spec.ostep, List.map_set, Spec.absO]
   | emplace k x => simp [Spec.optToVar, Spec.step, Spec.ostep, List.map_set, Spec.absO]
+  | val k asg direct cat x =>
+    simp only [Spec.optToVar, Spec.step, Spec.ostep, List.getElem?_map]
+    cases hk : st[k]? with
+    | none => simp
+    | some v =>
+      simp only [Option.map_some, List.map_set, absO_convStep]
+      cases hv' : Spec.absO v <;> simp
   | assign k j mv =>
     simp only [Spec.optToVar, Spec.step, Spec.ostep, List.getElem?_map]
     cases hk : st[k]? <;> cases hj : st[j]? <;> simp only [Option.map_some, Option.map_none]
@@ -277,19 +447,48 @@ theorem optional_refines (c : Cfg) (hc : c.n = 2) (el : Elem α) (ht : TrivOK c 
     · simp only [hkj, if_true, List.map_set, absO_swapSelfV]
     · simp only [hkj, if_false, List.map_set, absO_swapV1, absO_swapV2]
 
-example : Spec.valid 2 [(⟨0, (0, 0)⟩ : V (Nat × Nat)), ⟨1, (7, 0)⟩] (Spec.optToVar (0, 0) (.assign 0 1 true)) = true := by
-  decide
+/-- non-vacuity: `optional<Q>`: a move assignment, and `o = q` for an lvalue Q through the member template -/
+example : Spec.valid 2 [(⟨0, (0, 0)⟩ : V (Nat × Nat)), ⟨1, (7, 0)⟩] (Spec.optToVar (0, 0) (.assign 0 1 true)) = true
+    ∧ Spec.valid 2 [(⟨0, (0, 0)⟩ : V (Nat × Nat)), ⟨1, (7, 0)⟩] (Spec.optToVar (0, 0) (.val 1 true true .lval (3, 0))) = true
+    ∧ Spec.ConvOK markElem [(⟨0, (0, 0)⟩ : V (Nat × Nat)), ⟨1, (7, 0)⟩] (Spec.optToVar (0, 0) (.val 1 true true .lval (3, 0))) := by
+  refine ⟨by decide, by decide, ?_⟩
+  simp [Spec.ConvOK, Spec.optToVar]
 
+/-- `optional<T>(optional<U> const&)` / `(optional<U>&&)` from an engaged source: the constructor default-initializes
+    `_var{nullopt}` and then runs `emplace(*other)`; seen through `absO` the two variant steps are the single step
+    "initialized from the converted value" of [optional.ctor] -/
+theorem optional_convCtor_refines (c : Cfg) (hc : c.n = 2) (el : Elem α) (ht : TrivOK c el)
+    (nullv : α) (st : List (V α)) (hwf : WF c st) (k : Nat) (x : α) (hk : k < st.length) :
+    ((step c el st (.make k 0 nullv)).bind fun st1 => step c el st1 (.emplace k 1 x)).map (List.map Spec.absO)
+      = .ok (Spec.ostep el (st.map Spec.absO) (.val k false true .conv x)) := by
+  have hv1 : Spec.valid c.n st (.make k 0 nullv) = true := by simp [Spec.valid, hk, hc]
+  rw [step_refines_partial c el ht Spec.noFb st hwf _ hv1 (fbHit_noFb _ _) (by simp [Spec.ConvOK])]
+  have hwf1 := wf_step c el Spec.noFb st hwf _ hv1
+  have hv2 : Spec.valid c.n (Spec.step el Spec.noFb st (.make k 0 nullv)) (.emplace k 1 x) = true := by
+    simp [Spec.valid, Spec.step, hk, hc]
+  show (step c el (Spec.step el Spec.noFb st (.make k 0 nullv)) (.emplace k 1 x)).map (List.map Spec.absO) = _
+  rw [step_refines_partial c el ht Spec.noFb _ hwf1 _ hv2 (fbHit_noFb _ _) (by simp [Spec.ConvOK])]
+  simp only [ok_map]
+  congr 1
+  have hk' : k < (st.map Spec.absO).length := by simpa using hk
+  simp only [Spec.step, Spec.ostep, List.set_set, List.map_set, List.getElem?_eq_getElem hk']
+  cases (List.map Spec.absO st)[k] <;> simp [Spec.absO, consArg]
+
+example : (0 : Nat) < [(⟨0, (0, 0)⟩ : V (Nat × Nat))].length := by decide
 /-- `etl::expected<T,E>` (value = index 0, in-place construction, `emplace = _u.emplace<0>`, copy/move/swap = the
-    variant's) is a simulation of [expected.object.assign] / [expected.object.cons] on value-or-error (`hfb`: no
-    member type asks for reinit-expected's copy-then-move) -/
-theorem expected_refines (c : Cfg) (hc : c.n = 2) (el : Elem α) (ht : TrivOK c el)
-    (fb : α → Bool) (hfb : ∀ x, fb x = false)
+    variant's) is a simulation of [expected.object.assign] / [expected.object.cons] on value-or-error.  `_partial`:
+    `hfb` excludes exactly the steps of known finding F-C07-copy-assign-no-copy-then-move (a copy assignment value ←
+    error or error ← value of a member whose type asks for reinit-expected's copy-then-move). -/
+theorem expected_refines_partial (c : Cfg) (hc : c.n = 2) (el : Elem α) (ht : TrivOK c el)
+    (fb : α → Bool)
     (viaEmplace : Bool) (st : List (V α)) (hwf : WF c st) (op : Spec.EOp α)
-    (hv : Spec.valid 2 st (Spec.expToVar viaEmplace op) = true) :
+    (hv : Spec.valid 2 st (Spec.expToVar viaEmplace op) = true)
+    (hfb : Spec.fbHit fb st (Spec.expToVar viaEmplace op) = false) :
     (step c el st (Spec.expToVar viaEmplace op)).map (List.map Spec.absE)
       = .ok (Spec.estep el fb (st.map Spec.absE) op) := by
-  rw [step_refines c el ht fb hfb st hwf _ (by rw [hc]; exact hv)]
+  have hvt : Spec.ConvOK el st (Spec.expToVar viaEmplace op) := by
+    cases op <;> cases viaEmplace <;> simp [Spec.expToVar, Spec.ConvOK]
+  rw [step_refines_partial c el ht fb st hwf _ (by rw [hc]; exact hv) hfb hvt]
   simp only [ok_map]
   congr 1
   have h2 : ∀ {k : Nat} {v : V α}, st[k]? = some v → v.idx < 2 := by
@@ -320,8 +519,10 @@ theorem expected_refines (c : Cfg) (hc : c.n = 2) (el : Elem α) (ht : TrivOK c 
       simp only [if_true, List.map_set, absE_swapSelfV _ _ (h2 hk)]
     · simp only [hkj, if_false, List.map_set, absE_swapV1 _ _ _ (h2 hk) (h2 hj), absE_swapV2 _ _ _ (h2 hk) (h2 hj)]
 
-example : Spec.valid 2 [(⟨0, (0, 0)⟩ : V (Nat × Nat)), ⟨1, (7, 0)⟩] (Spec.expToVar true (.setVal 1 (4, 0))) = true := by
-  decide
+/-- non-vacuity: `expected<Q, X>`: emplace, and a move assignment error → value of an X -/
+example : Spec.valid 2 [(⟨0, (0, 0)⟩ : V (Nat × Nat)), ⟨1, (7, 0)⟩] (Spec.expToVar true (.setVal 1 (4, 0))) = true
+    ∧ Spec.fbHit (fun _ => true) [(⟨0, (0, 0)⟩ : V (Nat × Nat)), ⟨1, (7, 0)⟩] (Spec.expToVar true (.assign 0 1 true)) = false := by
+  refine ⟨by decide, by decide⟩
 
 /-! ## observers -/
 
@@ -341,6 +542,26 @@ theorem andThen_eq {ρ : Type} (v : V α) (f : α → ρ) : andThen v f = .ok ((
 theorem orElse_eq (v : V α) : orElse v = .ok (Spec.absO v) := by
   unfold orElse hasValue deref getAt Spec.absO
   by_cases h : v.idx = 1 <;> simp [h]
+
+/-- optional::value_or on lvalues and rvalues with the construction of the returned object: which constructor of the
+    element makes the result (copy for `const&`, move for `&&`, move from the argument temporary when empty) and what
+    the moved-from optional holds afterwards (still engaged, the moved-from element) -/
+theorem valueOrCat_eq (el : Elem α) (mv : Bool) (v : V α) (d : α) :
+    (valueOrCat el mv v d).map (fun r => (r.1, Spec.absO r.2)) = .ok (Spec.valueOrCatO el mv (Spec.absO v) d) := by
+  unfold valueOrCat hasValue deref getAt Spec.valueOrCatO Spec.absO
+  by_cases h : v.idx = 1 <;> cases mv <;> simp [h]
+
+/-- optional::or_else on lvalues and rvalues, likewise -/
+theorem orElseCat_eq (el : Elem α) (mv : Bool) (v : V α) :
+    (orElseCat el mv v).map (fun r => (r.1, Spec.absO r.2)) = .ok (Spec.orElseCatO el mv (Spec.absO v)) := by
+  unfold orElseCat hasValue deref getAt Spec.orElseCatO Spec.absO
+  by_cases h : v.idx = 1 <;> cases mv <;> simp [h]
+
+/-- expected::value_or on lvalues and rvalues, likewise -/
+theorem expValueOrCat_eq (el : Elem α) (mv : Bool) (v : V α) (d : α) :
+    (expValueOrCat el mv v d).map (fun r => (r.1, Spec.absE r.2)) = .ok (Spec.valueOrCatE el mv (Spec.absE v) d) := by
+  unfold expValueOrCat expDeref expHas getAt Spec.valueOrCatE Spec.absE
+  by_cases h0 : v.idx = 0 <;> cases mv <;> simp [h0]
 
 /-- expected::value_or, for an object holding one of its two members -/
 theorem expValueOr_eq (v : V α) (d : α) (h : v.idx < 2) : expValueOr v d = .ok ((Spec.absE v).valueOr d) := by
